@@ -229,7 +229,7 @@ def units(tier, seed):
                 us.append(cfg)
     # the closed-loop family has its own copy of the roll-up (SBTEconomics.Calculate)
     conc = [f for f in ALL_FLAGS if f not in QUICK_SYM]
-    for pat in ([[False] * len(conc)] if tier == 'quick' else [[False] * len(conc), [True] * len(conc), [i % 2 == 0 for i in range(len(conc))]]):
+    for pat in ([[f in ('ccexplfixed.Valid', 'ccgathfixed.Valid', 'oamwellfixed.Valid') for f in conc]] if tier == 'quick' else [[False] * len(conc), [True] * len(conc), [i % 2 == 0 for i in range(len(conc))]]):
         fl = dict(zip(conc, pat))
         if tier == 'quick':
             fl.update({'ccstimfixed.Valid': False, 'oamplantfixed.Valid': False})
